@@ -979,7 +979,9 @@ impl<'a, K: HashKind> Case<'a, K> {
     fn op_overlay_step(&mut self) {
         let live: Vec<usize> = (0..self.ovs.len()).filter(|&i| self.ovs[i].status == OvStatus::Live).collect();
         let choice = self.rng.below(100);
-        if live.is_empty() || choice < 35 {
+        if self.sut.model.rollback_enabled && self.rng.chance(1, 6) {
+            self.ov_chain_scenario();
+        } else if live.is_empty() || choice < 35 {
             self.ov_new(&live);
         } else if choice < 55 {
             self.ov_commit_valid(&live);
@@ -997,6 +999,149 @@ impl<'a, K: HashKind> Case<'a, K> {
             self.drop_all_overlays();
             self.ovs.clear();
         }
+    }
+
+    /// A targeted composite: build a chain A <- B (<- C) on the committed state in which each
+    /// overlay deletes keys its ancestor inserted, re-writes (blind `Write`) keys its ancestor
+    /// deleted, and overwrites keys its ancestor overwrote; commit the chain in order and undo it
+    /// again with single-step rollbacks. Every intermediate state is compared with the model.
+    fn ov_chain_scenario(&mut self) {
+        self.drop_all_overlays();
+        self.ovs.clear();
+        let depth = 2 + self.rng.usize_below(2);
+        let ctx0 = format!("op{} overlay-chain-scenario depth={depth}", self.rep.op_index);
+        self.rep.t(ctx0.clone());
+        let mut prev_batch: Batch = Vec::new();
+        for level in 0..depth {
+            let (chain_idx, view) = match self.ovs.len() {
+                0 => (Vec::new(), self.sut.model.kv.clone()),
+                n => (self.live_chain(n - 1).unwrap_or_default(), self.ovs[n - 1].state.clone()),
+            };
+            let st = self.next_stamp();
+            let mut m: std::collections::BTreeMap<Key, Access> = std::collections::BTreeMap::new();
+            if level == 0 {
+                // delete some present keys, insert a few, overwrite a few
+                let present: Vec<Key> = view.keys().take(4000).copied().collect();
+                for (j, k) in present.iter().enumerate() {
+                    match self.rng.below(12) {
+                        0 | 1 => {
+                            m.insert(*k, Access::Write(None));
+                        }
+                        2 => {
+                            m.insert(*k, Access::Write(Some(crate::gen::stamped_value(st + j as u64, 20))));
+                        }
+                        _ => {}
+                    }
+                    if m.len() > 40 {
+                        break;
+                    }
+                }
+                for j in 0..self.rng.range(1, 8) {
+                    let k = self.pool.pick(&mut self.rng);
+                    m.entry(k).or_insert(Access::Write(Some(crate::gen::stamped_value(st + 500 + j, 12))));
+                }
+            } else {
+                for (j, (k, a)) in prev_batch.iter().enumerate() {
+                    let r = self.rng.below(4);
+                    match a.new_value() {
+                        // ancestor deleted k: write it again blindly (or via read-then-write)
+                        Some(None) if r < 2 => {
+                            m.insert(*k, Access::Write(Some(crate::gen::stamped_value(st + j as u64, 9 + level))));
+                        }
+                        Some(None) if r == 2 => {
+                            m.insert(*k, Access::ReadThenWrite(Some(crate::gen::stamped_value(st + j as u64, 9 + level))));
+                        }
+                        // ancestor wrote k: delete or overwrite it
+                        Some(Some(_)) if r == 0 => {
+                            m.insert(*k, Access::Write(None));
+                        }
+                        Some(Some(_)) if r == 1 => {
+                            m.insert(*k, Access::Write(Some(crate::gen::stamped_value(st + j as u64, 30))));
+                        }
+                        _ => {}
+                    }
+                }
+                for j in 0..self.rng.range(0, 4) {
+                    let k = self.pool.pick(&mut self.rng);
+                    m.entry(k).or_insert(Access::Write(Some(crate::gen::stamped_value(st + 900 + j, 10))));
+                }
+            }
+            if m.is_empty() {
+                let k = self.pool.pick(&mut self.rng);
+                m.insert(k, Access::Write(Some(crate::gen::stamped_value(st, 8))));
+            }
+            let batch: Batch = m.into_iter().collect();
+            prev_batch = batch.clone();
+            let ctx = format!("{ctx0} level={level} {}", Self::describe_batch(&batch));
+            self.rep.t(ctx.clone());
+            let chain_refs: Vec<&Overlay> = chain_idx.iter().map(|&i| self.ovs[i].ov.as_ref().unwrap()).collect();
+            let Some(prep) = self
+                .sut
+                .prepare(self.rep, &mut self.hint_rng, &chain_refs, &view, batch, false, 2, &ctx)
+            else {
+                return;
+            };
+            let parent = if self.ovs.is_empty() { None } else { Some(self.ovs.len() - 1) };
+            let ov = prep.fin.into_overlay();
+            self.ovs.push(OvEntry {
+                ov: Some(ov),
+                parent,
+                base_root: prep.base_root,
+                state: prep.new_state,
+                root: prep.new_root,
+                status: OvStatus::Live,
+                depth: level + 1,
+                epoch: self.epoch,
+            });
+        }
+        // commit the chain in order
+        for i in 0..self.ovs.len() {
+            if self.sut.dead || self.rep.diverged {
+                return;
+            }
+            let ctx = format!("{ctx0} commit level={i}");
+            self.rep.t(ctx.clone());
+            let ov = self.ovs[i].ov.take().unwrap();
+            let db = self.sut.db.as_ref().unwrap();
+            self.rep.eval("C11", true);
+            match guard(|| ov.commit(db).map_err(|e| format!("{e:#}"))) {
+                Ok(Ok(())) => {
+                    let st = self.ovs[i].state.clone();
+                    self.ovs[i].status = OvStatus::Committed;
+                    self.sut.model.commit_state(st);
+                    self.commits += 1;
+                    self.epoch += 1;
+                    self.commit_marker = Some(i);
+                    let keys: Vec<Key> = self.sut.probe_keys(&mut self.rng, &[], 16, 4);
+                    let mut sub = self.rep.sub();
+                    self.sut.post_commit_checks(&mut sub, &mut self.rng, &keys, &ctx, true, false);
+                    for f in &sub.findings {
+                        self.rep.fail("C11", &format!("after-overlay-commit:{}", f.sig), f.detail.clone());
+                    }
+                    self.rep.merge(sub);
+                    self.quiescent("overlay-commit");
+                }
+                Ok(Err(e)) => {
+                    self.rep.fail("C11", &format!("valid-overlay-commit-refused:{}", msg_class(&e)), format!("{ctx}: {e}"));
+                    return;
+                }
+                Err(p) => {
+                    self.rep.fail("C11", "overlay-commit-panic", format!("{ctx}: {p}"));
+                    self.sut.dead = true;
+                    return;
+                }
+            }
+        }
+        self.rep.feat("overlay_chain_scenarios", 1);
+        // and undo it step by step
+        let prop = if self.p.name == "C09" { "C09" } else { "C11" };
+        let steps = self.sut.model.guaranteed().min(depth);
+        for _ in 0..steps {
+            if self.sut.dead || self.rep.diverged || !self.rollback_ok(1, prop) {
+                return;
+            }
+        }
+        self.ovs.clear();
     }
 
     fn ov_new(&mut self, live: &[usize]) {
